@@ -2,7 +2,7 @@
 from hypothesis import strategies as st
 
 from harness import build, gen, simnet, wire, httpref, deflateref
-from harness.runner import Prop, Enumeration, held, failed
+from harness.runner import Prop, Enumeration, held, failed, after_every_prelude
 from props.c01 import effective_seg, compare_events
 
 
@@ -111,6 +111,8 @@ class C14(Prop):
             "close_at": st.one_of(st.none(), st.integers(0, 8)),
             "fault": st.one_of(st.none(), st.tuples(st.integers(0, 5), st.sampled_from(["timeout", "oserror", "exc"])).map(list)),
             "seg": gen.segmentation(),
+            # an earlier connection in this process (same WebSocket object or another) and how it ended
+            "prelude": gen.prelude(),
             # permessage-deflate negotiated (any parameters); the data messages selected by cmask are sent
             # compressed by the peer, so Pings also arrive between the fragments of compressed messages
             # (Pongs must still go out uncompressed, with the Ping's payload)
@@ -138,7 +140,15 @@ class C14(Prop):
         def cases():
             for c in inner.make():
                 yield dict(c, sched=True)
-        return [Enumeration("pong_before_reaction_all_single_preemptions", cases, exhaustive=True)]
+        ping = lambda h: {"kind": "ping", "payload": ["hex", h], "forms": [0]}      # noqa: E731
+        battery = [
+            {"msgs": [ping("01"), ping(""), {"kind": "text", "payload": ["str", "abcdef"], "forms": [0], "frag": [2, 4],
+                                            "inter": [[0, ping("6265747765656e")], [1, ping("02")]]}, ping("ff" * 125)],
+             "auto_pong": True, "sends": [{"when": ["event", "ping", None], "do": [["send_text", "at-ping"]]}],
+             "close_at": None, "fault": None, "seg": "whole", "deflate": False, "cmask": 0},
+        ]
+        return [Enumeration("pong_before_reaction_all_single_preemptions", cases, exhaustive=True),
+                after_every_prelude(battery)]
 
     def scenario(self, case, fault_ordinal=None):
         msgs, deflater = case["msgs"], None
